@@ -94,7 +94,7 @@ def generate(rng, tier):
             cases.append({"board": bd, "calls": [("motors_on", a, b), ("motors_query",)], "family": "motors/systematic"})
     for nk in NICKS:
         cases.append({"board": _board(rng), "calls": [("write_nick", nk), ("query_nick",), ("query", "QT"), ("query_nick",)], "family": "nickname/systematic"})
-    n = 150 if tier == "quick" else 3000
+    n = 150 if tier == "quick" else 9000
     for _ in range(n):
         calls = []
         for _ in range(rng.randint(3, 12)):
